@@ -161,7 +161,7 @@ func genAnyEntry(r *rand.Rand, depth int) V {
 	case 4:
 		return V{T: 'i', I: int64(r.Intn(50))}
 	case 5:
-		return V{T: 'O', Op: []string{"c1", "c6", "c0", "c9", fmt.Sprintf("u1:%s:%s", hx("~="), hx("approx")), fmt.Sprintf("u2:%s:%s", hx(""), hx("c")), "-", "z", "y"}[r.Intn(9)]}
+		return V{T: 'O', Op: []string{"c1", "c6", "c0", "c9", fmt.Sprintf("u1:%s:%s", hx("~="), hx("approx")), fmt.Sprintf("u2:%s:%s", hx(""), hx("c")), "-", "z", "y", "w"}[r.Intn(10)]}
 	case 6:
 		return V{T: 'o', Ty: 5, ID: 1}
 	case 7:
